@@ -74,6 +74,13 @@ def build_scenario_parts(rng, nvars, opes=False, script=False, errors=False):
                      "    group2 { atomNumbers %d }\n  }\n}\n" % (k, a, b_))
         biases += "abf {\n  name pa\n  colvars p0 p1\n  fullSamples 1\n  pABFintegrateFreq 1\n}\n"
         biases += "abf {\n  name pb\n  colvars p2 p3\n  fullSamples 1\n  pABFintegrateFreq 1\n}\n"
+    # two extended-Lagrangian variables with the default Langevin thermostat: both draw their random kicks from the engine's
+    # single stream, in the order in which the variables are listed
+    xa = rng.sample(range(1, 39), 4)
+    for k in range(2):
+        text += ("colvar {\n  name x%d\n  extendedLagrangian on\n  extendedFluctuation 0.2\n  extendedTimeConstant 20.0\n  outputEnergy on\n"
+                 "  distance {\n    group1 { atomNumbers %d }\n    group2 { atomNumbers %d }\n  }\n}\n" % (k, xa[2 * k], xa[2 * k + 1]))
+    biases += "harmonic {\n  name hx\n  colvars x0\n  centers 5.0\n  forceConstant 1.5\n}\n"
     if opes:
         biases += "opes_metad {\n  name op\n  colvars v1\n  newHillFrequency 2\n  barrier 5.0\n  gaussianSigma 0.5\n}\n"
     glob_opts = "colvarsTrajFrequency 1\n"
@@ -91,7 +98,7 @@ def build_scenario_parts(rng, nvars, opes=False, script=False, errors=False):
 
 
 def scenario(sysm, cfg, frames, smp, prefix, script):
-    s = corpus.scenario_header(sysm, tfmode="same", extra="temp 300.0\nsmp %s\nkeepsched on" % smp)
+    s = corpus.scenario_header(sysm, tfmode="same", extra="dt 1.0\ntemp 300.0\nsmp %s\nkeepsched on" % smp)
     if script:
         s += "forcecb v0 0.125\n"
     s += "module\nprefix %s\nconfig <<EOC\n%sEOC\ninit\n" % (prefix, cfg)
